@@ -462,8 +462,14 @@ func (m *ModuleInstance) resolveImports(ctx context.Context, module *Module) (er
 					return
 				}
 
-				if expected.Min > importedTable.Min {
-					err = errorMinSizeMismatch(i, expected.Min, importedTable.Min)
+				// As for memories, the minimum is matched against the current size, which may have grown
+				// beyond the declared minimum.
+				currentLen := importedTable.Min
+				if l := uint32(len(importedTable.References)); l > currentLen {
+					currentLen = l
+				}
+				if expected.Min > currentLen {
+					err = errorMinSizeMismatch(i, expected.Min, currentLen)
 					return
 				}
 
